@@ -53,12 +53,23 @@ def is_nested(base):
     return isinstance(base, str) and not base.isdigit()
 
 
+FLIP = {"A": "L", "L": "A", "B": "S", "S": "B"}
+
+
 def values(base):
-    """two values of the base type, then ill-typed ones"""
+    """two values of the base type (for element aggregates: payload 0 = built over the declaration's own base-type object,
+    payload 1 = over a fresh, structurally equal one), then ill-typed ones"""
     if is_nested(base):
-        k, b = base[0], int(base[1])
-        other_kind = {"A": "L", "L": "A", "B": "S", "S": "B"}[k]
-        return [(base, 0), (base, 1), (f"{k}{(b + 1) % 3}", 0), (f"{other_kind}{b}", 0), (b, 0)]
+        k, inner = base[0], base[1:]
+        out = [(base, 0), (base, 1)]
+        if len(inner) == 1:
+            b = int(inner)
+            return out + [(f"{k}{(b + 1) % 3}", 0), (f"{FLIP[k]}{b}", 0), (b, 0)]
+        return out + [(k + FLIP[inner[0]] + inner[1:], 1),                        # the kind of an inner level differs
+                      (k + FLIP[inner[0]] + inner[1:], 0),
+                      (k + inner[:-1] + str((int(inner[-1]) + 1) % 3), 1),        # the simple type at the bottom differs
+                      (FLIP[k] + inner, 1),                                       # the outermost kind differs
+                      (k + inner[1:], 1)]                                         # one level missing
     base = int(base)
     other = (base + 1) % 3
     return [(base, 0), (base, 1), (other, 0)]
@@ -98,6 +109,7 @@ def coll_decls(bounds, base=0):
 
 
 NESTED = ["A2", "L0", "B1", "S2", "A0", "L2"]
+DEEP = ["LS2", "AL0", "SB1", "LAS2", "ASL1"]           # the container is nested three and four levels deep
 
 
 ILLEGAL = [("ARRAY", 2, 1, 0, 0, 0, 0), ("ARRAY", 1, None, 0, 0, 0, 0), ("ARRAY", 0, -1, 0, 1, 1, 0),
@@ -107,7 +119,8 @@ ILLEGAL = [("ARRAY", 2, 1, 0, 0, 0, 0), ("ARRAY", 1, None, 0, 0, 0, 0), ("ARRAY"
 
 def random_decl(rng):
     k = rng.choice(["ARRAY", "LIST", "LIST", "BAG", "SET"])
-    base = rng.choice(NESTED) if rng.random() < 0.3 else rng.randrange(3)
+    r = rng.random()
+    base = rng.choice(DEEP) if r < 0.12 else rng.choice(NESTED) if r < 0.35 else rng.randrange(3)
     if k == "ARRAY":
         lo = rng.choice([-3, -1, 0, 1, 1, 2, 5])
         hi = lo + rng.choice([0, 1, 2, 3, 5, 8])
@@ -161,7 +174,7 @@ def random_world(rng, length, n=3):
     """n containers side by side in one interpreter, their operations interleaved at random"""
     decls = [random_decl(rng) for _ in range(n)]
     if rng.random() < 0.7:          # same nested base type in two containers: shared-type state would show
-        b = rng.choice(NESTED)
+        b = rng.choice(NESTED + DEEP)
         decls[0] = decls[0][:3] + (b,) + decls[0][4:6] + (0,)
         decls[1] = decls[1][:3] + (b,) + decls[1][4:6] + (0,)
     cur = [Cursor(rng, d) for d in decls]
@@ -501,6 +514,12 @@ def batches(ctx):
     else:
         yield "exhaustive-nested-3", nested(NESTED, 3)
         yield "exhaustive-nested-4", nested(NESTED[:2], 4, full=False)
+    # three and four levels: the comparison of the element's base type with the declared one at every level
+    for depth in ((1, 2) if quick else (1, 2, 3)):
+        yield f"exhaustive-deep-nested-{depth}", (h for b in (DEEP[:4] if quick else DEEP)
+                                                 for d in (array_decls([(1, 2)], b)[1:3] + list_decls([(0, None)], b)
+                                                           + coll_decls([(0, None), (0, 2)], b))
+                                                 for h in exhaustive(d, depth))
     n, ln = (400, 40) if quick else (20000, 50)
     yield "random", [random_history(ctx.rng, ln) for _ in range(n)]
     # several containers side by side in one interpreter, operations interleaved
